@@ -781,8 +781,8 @@ def run(ctx):
 
     # ------------------------------------------------------------------ correspondence: request.GET histories
     cases = []
-    for _ in range(ctx.scale(400, 4000)):
-        qs0, ops = rand_history(rng, ctx.scale(8, 20))
+    for _ in range(ctx.scale(400, 2400)):
+        qs0, ops = rand_history(rng, ctx.scale(8, 16))
         cases.append((cpair(cstr(qs0), clist(crq(o) for o in ops)), run_get_history(qs0, ops),
                       {"kind": "history", "qs0": qs0, "ops": ops}))
     bad = ctx.corr("request-get", IMPORTS, "(fun c => run_request_get (fst c) (snd c))", cases, in_type="(str * list rq_op)",
@@ -794,7 +794,7 @@ def run(ctx):
     # ------------------------------------------------------------------ correspondence: multipart framing
     rng = ctx.sub_rng("corr-multipart")
     enc_cases, dec_cases = [], []
-    for _ in range(ctx.scale(350, 3000)):
+    for _ in range(ctx.scale(350, 2000)):
         fields = [(k, v if isinstance(v, str) else (v[0], v[1][:200])) for k, v in
                   rand_fields(rng, True, 3, trailing_backslash=rng.random() < 0.03)]
         b = rand_boundary(rng, fields)
